@@ -80,7 +80,7 @@ def derived_name(j, i, pat):
 def histories(tier):
     q = tier == "quick"
     n = 3 if q else 4
-    maxobj = 5 if q else 6
+    maxobj = 5   # (6 in the thorough tier made it run for more than two hours)
     for edges, pats, build, pre_handles in scenarios(n, 2 if q else 2):
         if not q and len(edges) > 4:
             continue
@@ -219,7 +219,7 @@ def run(tier):
                        "(build, drop order) pairs; transitions = object re-observations",
         "exhaustive": True,
     }
-    res.assumptions = ["scenarios with more than 5/6 droppable objects permute the newest 5/6 only"]
+    res.assumptions = ["scenarios with more than 5 droppable objects permute the newest 5 only (the older ones are dropped first, in creation order)"]
     return res
 
 
